@@ -160,6 +160,8 @@ pub struct Ledger {
     pub withdrawals: f64,
     pub whole_shares: bool,
     pub long_only: bool,
+    /// sum of the absolute values of everything that ever moved cash (scale for float tolerance)
+    pub gross: f64,
 }
 
 fn is_whole(x: f64) -> bool {
@@ -180,6 +182,7 @@ impl Ledger {
             TradeType::Buy => self.cash -= t.value,
             TradeType::Sell => self.cash += t.value,
         }
+        self.gross += t.value.abs();
         let h = self.holdings.get(&t.symbol).copied().unwrap_or(0.0) + sign * t.quantity;
         if h == 0.0 {
             self.holdings.remove(&t.symbol);
@@ -395,8 +398,10 @@ impl<'a> Sim<'a> {
 
     pub fn generic_rules(&mut self, o: &Obs, what: &str) {
         // C04 ------------------------------------------------------------------------------------
+        // 1e-9 relative to the money that moved (sums of large terms can cancel to something tiny)
+        let cash_scale = (self.led.gross + self.led.deposits.abs() + self.led.withdrawals.abs()).max(1.0);
         rule!(
-            self.ctx, "C04", "cash-ledger", what, close(o.cash, self.led.cash, 1e-9),
+            self.ctx, "C04", "cash-ledger", what, (o.cash - self.led.cash).abs() <= 1e-9 * cash_scale,
             "after {what}: cash balance {:?} but deposits - withdrawals -/+ executed trades = {:?} (deposits {:?}, withdrawals {:?}, {} trades)",
             o.cash, self.led.cash, self.led.deposits, self.led.withdrawals, self.led.trades.len()
         );
@@ -468,6 +473,8 @@ impl<'a> Sim<'a> {
             }
             let mut sum = o.cash;
             let mut n_pos = 0;
+            // tolerance relative to the size of the summands, not of the (possibly cancelling) sum
+            let mut mag = o.cash.abs().max(1.0);
             for (s, qty) in &o.holdings {
                 let pv = o.pos_value.get(s).copied().flatten();
                 match o.quotes.get(s) {
@@ -478,6 +485,7 @@ impl<'a> Sim<'a> {
                             "after {what}: position value of {s} = {:?}, quantity {:?} x last bid {:?} = {:?}", pv, qty, q.0, want
                         );
                         sum += pv.unwrap_or(0.0);
+                        mag += pv.unwrap_or(0.0).abs();
                         n_pos += 1;
                     }
                     None => {
@@ -519,17 +527,17 @@ impl<'a> Sim<'a> {
                 }
             }
             rule!(
-                self.ctx, "C11", "total-value", what, close(o.total, sum, 1e-9),
+                self.ctx, "C11", "total-value", what, (o.total - sum).abs() <= 1e-9 * mag,
                 "after {what}: total value {:?} but cash {:?} + sum of {} position values = {:?}", o.total, o.cash, n_pos, sum
             );
             if o.holdings.values().all(|v| *v >= 0.0) {
                 rule!(
-                    self.ctx, "C11", "liquidation-le-total", what, o.liq <= o.total + 1e-9 * o.total.abs().max(1.0),
+                    self.ctx, "C11", "liquidation-le-total", what, o.liq <= o.total + 1e-9 * mag,
                     "after {what}: liquidation value {:?} exceeds total value {:?} for a long portfolio", o.liq, o.total
                 );
                 if self.costs.is_empty() {
                     rule!(
-                        self.ctx, "C11", "liquidation-eq-total-without-costs", what, close(o.liq, o.total, 1e-9),
+                        self.ctx, "C11", "liquidation-eq-total-without-costs", what, (o.liq - o.total).abs() <= 1e-9 * mag,
                         "after {what}: no trade costs but liquidation value {:?} != total value {:?}", o.liq, o.total
                     );
                 }
